@@ -76,7 +76,10 @@ func run(c *core.Ctx) {
 		if c.Expired() {
 			return false
 		}
-		caseNo, _ := c.Begin()
+		caseNo, run := c.Begin()
+		if c.Skip(caseNo, run, Input{text}) {
+			return true
+		}
 		c.Exec()
 		c.Edge(1)
 		c.StateN(1)
